@@ -5,7 +5,7 @@
     case <n> conn max=<m> http=<0|1> ws=<0|1> obs=<0|1> path=<server|tower|towerset>   -> case
     cg harrive <c> <new|reuse> | cg hdone <c> | cg habort <c> <fin|rst>
     cg wstart <c> <handshakeOk 0|1> | cg wdone <c> | cg wfail <c> <drop|reset>
-    cg wclose <c> <close|closecall|reset|resetcall|proto|ping|stop>
+    cg wclose <c> <close|closecall|halfcall|reset|resetcall|proto|ping|pingcall|stop>
   (the extra tokens say HOW the harness produces the event on the wire: fresh / kept-alive
    TCP connection, FIN / RST, 101 dropped by a middleware / peer reset, … — the guard does not
    distinguish them, which is part of what the correspondence checks)
@@ -53,6 +53,8 @@ def parseCloseHow (s : String) : Option ConnGuard.CloseHow :=
   else if s == "resetcall" then some .peerReset
   else if s == "proto" then some .serverClose
   else if s == "ping" then some .serverClose
+  else if s == "pingcall" then some .serverClose
+  else if s == "halfcall" then some .peerClose
   else if s == "stop" then some .stopped
   else none
 
